@@ -83,7 +83,7 @@ def enabled(cfg):
         if act == 'EioOpen':
             return s['eio'][a['t']] == 'none' and (
                 a['after'] == '' or s['eio'][a['after']] != 'none')
-        if act == 'EioLost':
+        if act in ('EioLost', 'RxFuzz'):
             return s['eio'][a['t']] == 'open'
         if act == 'RxConnect':
             return s['eio'][a['t']] == 'open' and s['nextSid'] <= max_sid \
@@ -374,6 +374,18 @@ def hostile(cfg):
     return _mp_filter(cfg, A)
 
 
+def hostile_fuzz(cfg):
+    """Random tier of C12: the offender sends arbitrary frames (harness/fuzz.py)
+    and, apart from opening, connecting and losing its transport, nothing
+    else; the bystanders behave, the application uses its API."""
+    A = [a for a in hostile(cfg)
+         if a.get('t') != cfg['offender'] or
+         a['act'] in ('EioOpen', 'EioLost', 'RxConnect')]
+    for k in range(cfg['fuzz_frames']):
+        A.append(mk('RxFuzz', t=cfg['offender'], seed=k))
+    return A
+
+
 def _mp_filter(cfg, A):
     """The msgpack serializer has no multi-frame packets: a packet claiming
     to be binary always announces 0 attachments."""
@@ -390,6 +402,11 @@ CONFIGS['hostile'] = dict(transports=['t1', 't2', 't3'], offender='t1',
                           alpha='hostile', dev=['D6'])
 CONFIGS['hostile_t'] = dict(CONFIGS['hostile'], transports=['t1', 't2'],
                              max_sid=2, max_ack=1)
+# (walks only: an arbitrary frame has no modelled effect on its sender)
+CONFIGS['hostile_fuzz'] = dict(CONFIGS['hostile'], alpha='hostile_fuzz',
+                               fuzz_frames=80, max_sid=6, max_ack=2)
+CONFIGS['hostile_fuzz_mp'] = dict(CONFIGS['hostile_fuzz'],
+                                  serializer='msgpack')
 CONFIGS['hostile_quick'] = dict(CONFIGS['hostile'], transports=['t1', 't2'],
                                 ns_api=['/'], max_sid=2, max_ack=1,
                                 raw=['empty', 'type9', 'connerr', 'badjson',
